@@ -7,7 +7,7 @@ fn main() {
     if std::env::var("VERIF_PANIC_VERBOSE").is_err() {
         std::panic::set_hook(Box::new(|info| {
             let s = info.to_string();
-            if !s.contains("verif: injected") {
+            if !s.contains("verif: injected") && !s.contains("Expected index to be less then") {
                 eprintln!("panic: {}", s);
             }
         }));
